@@ -45,7 +45,7 @@ def gen_file(rnd, lens, allow_empty=True):
     if n == 0 and not allow_empty:
         n = 1
     return {"name": [ord(c) for c in name], "ext": [ord(c) for c in "BIN"], "ftype": rnd.choice([0, 1, 2, 2, 3]),
-            "dtype": rnd.choice([0, 0xFF]), "gaps": 0,
+            "dtype": rnd.choice([0, 0xFF]), "gaps": rnd.choice([0, 0, 0, 0xFF]),
             "load": rnd.choice(ADDRS) if rnd.random() < 0.6 else rnd.randrange(65536),
             "exec": rnd.choice(ADDRS) if rnd.random() < 0.6 else rnd.randrange(65536),
             "data": hexs(rdata(rnd, n))}
@@ -53,7 +53,7 @@ def gen_file(rnd, lens, allow_empty=True):
 
 def to_coco(f, none_addr=False):
     return CoCoFile(name="".join(chr(c) for c in f["name"]), extension="".join(chr(c) for c in f["ext"]),
-                    type=NumericValue(f["ftype"]), data_type=NumericValue(f["dtype"]),
+                    type=NumericValue(f["ftype"]), data_type=NumericValue(f["dtype"]), gaps=NumericValue(f.get("gaps", 0)),
                     load_addr=NumericValue(f["load"]), exec_addr=NumericValue(f["exec"]),
                     data=list(bytes.fromhex(f["data"])))
 
